@@ -10,6 +10,7 @@ import (
 	"os"
 	"sort"
 	"strings"
+	"sync/atomic"
 	"time"
 )
 
@@ -140,6 +141,33 @@ func (r *Report) Write(path string) error {
 		return err
 	}
 	return os.WriteFile(path, b, 0o644)
+}
+
+// ---- hang watchdog ----------------------------------------------------------
+// Enter/Leave bracket the evaluation of one state. The worker's watchdog
+// goroutine (cmd/verifrun) polls Current(): a state that has been inside for
+// longer than the limit (≈ 10^4 × the normal cost) is a hang.
+type inflight struct {
+	since  time.Time
+	replay func() map[string]interface{}
+	kind   string
+}
+
+var current atomic.Pointer[inflight]
+
+func Enter(kind string, replay func() map[string]interface{}) {
+	current.Store(&inflight{since: time.Now(), replay: replay, kind: kind})
+}
+func Leave() { current.Store(nil) }
+
+// Hung returns the replay description of the state in flight if it has been
+// in flight for longer than limit.
+func Hung(limit time.Duration) (kind string, replay map[string]interface{}, ok bool) {
+	c := current.Load()
+	if c == nil || time.Since(c.since) < limit {
+		return "", nil, false
+	}
+	return c.kind, c.replay(), true
 }
 
 // Check is one property's worker entry point.
